@@ -97,7 +97,8 @@ SeedScript(k) ==
                     Cr("create_shared", 2, 3, "V", "int", "b") >>
     [] k = 16 -> << MNew(1, "poly") >> \o Seg(1) \o Mix(1, 1) \o << MCopy(2, 1), Cr("get_property", 2, 4, "V", "int", "a") >>
 
-Run(w0, script) == FoldLeft(LAMBDA x, c : SetRet(Apply(x, c), "ok"), w0, script)
+Norm(x) == [x EXCEPT !.ret = "ok", !.busy = {}]
+Run(w0, script) == FoldLeft(LAMBDA x, c : Norm(Apply(x, c)), w0, script)
 
 (* ------------------ in-contract argument enumeration ------------------- *)
 LiveIdx(del) == {i - 1 : i \in {j \in DOMAIN del : ~del[j]}}
@@ -181,7 +182,7 @@ OpsAt(lv) == IF lv = 1 THEN Ops1 ELSE IF lv = 2 THEN Ops2 ELSE OpsN
 
 Step(c) ==
   LET m == Apply(w, c) IN
-  /\ w' = [m EXCEPT !.ret = "ok", !.err = ""]
+  /\ w' = [Norm(m) EXCEPT !.err = ""]
   /\ path' = Append(path, c)
   /\ bad' = ModelCheck(w, c, m)
   /\ UNCHANGED org
